@@ -22,7 +22,7 @@ use vcommon::{Check, Failure};
 const TYPES: &[(&str, Ty)] = &[("u8", Ty::U8), ("s8", Ty::S8), ("u16", Ty::U16), ("s16", Ty::S16), ("u32", Ty::U32), ("s32", Ty::S32), ("u64", Ty::U64), ("s64", Ty::S64), ("f32", Ty::F32), ("f64", Ty::F64), ("char", Ty::Char), ("bool", Ty::Bool)];
 
 fn world() -> ProxyWorld {
-    ProxyWorld { funcs: TYPES.iter().map(|(_, t)| Func { params: vec![t.clone()], result: Some(t.clone()) }).collect(), calls: vec![] }
+    ProxyWorld { funcs: TYPES.iter().map(|(_, t)| Func { params: vec![t.clone()], result: Some(t.clone()), sink: false }).collect(), calls: vec![] }
 }
 
 fn is64(t: &Ty) -> bool {
